@@ -676,6 +676,35 @@ func main() {
 		o4(randFragExpr(ro, 3, keys), randBody(ro))
 	}
 
+	// O5 (sentence 3 for identifiers): "@" + path, where path = allowed top level followed by ".segment"s, is cut
+	// out exactly when what follows cannot continue a path (not a name character, and a '.' only when no name
+	// character follows it)
+	o5 := func(path, rest string) {
+		if !validInput(path+rest) || !utf8.ValidString(path+rest) {
+			return
+		}
+		if _, err := excellent.Parse(path, nil); err != nil {
+			return
+		}
+		res.OracleChecks++
+		tpl := "@" + path + rest
+		res.Eval("O5:"+tpl, exsx.Special(tpl))
+		toks, p := scanReal(tpl, keys, true)
+		if p || len(toks) == 0 || toks[0].T != int(excellent.IDENTIFIER) || toks[0].S != path {
+			res.Fail("scanner-parser-agree:identifier-end", map[string]any{"path": path, "template": tpl},
+				fmt.Sprintf("the scanner's first token of %q is %v, expected IDENTIFIER %q", tpl, toks, path))
+		}
+	}
+	segs := []string{"bar", "Bar_1", "x", "0", "12", "名前", "é", "_", "a²"}
+	rests := []string{"", ".", "..", ". x", ".!", ".@foo", "@", "@@", " ", "!", ".(", "(", ")", "-x", ".\n", ",", ".\"", "😀"}
+	for i := 0; i < nOr/3; i++ {
+		path := hx.Pick(ro, []string{"foo", "FOO", "Foo", "x", "名前"})
+		for j := ro.Intn(3); j > 0; j-- {
+			path += "." + hx.Pick(ro, segs)
+		}
+		o5(path, hx.Pick(ro, rests))
+	}
+
 	b, _ := json.Marshal(res.Distribution)
 	_ = b
 	res.Write(o)
